@@ -73,10 +73,10 @@ def model_check(ctx):
         ctx.tlc("Listener", "Listener_live.cfg", workers=W, timeout=900, tag="live_tcp",
                 consts=base_consts(Conns=ONE, ScriptNames={"close1", "half"}, MaxFaults=1, MaxListenFail=1))
     else:
-        for rt in (False, True):
-            ctx.tlc("Listener", "Listener_mc.cfg", workers=W, timeout=3000, tag="mc_tcp_rt%d" % rt,
-                    consts=base_consts(ScriptNames={"close2", "burst", "half", "crhalf", "split", "silent"}, ReadTimeout=rt,
-                                       MaxFaults=1, MaxListenFail=1))
+        ctx.tlc("Listener", "Listener_mc.cfg", workers=W, timeout=3000, tag="mc_tcp_rt0",
+                consts=base_consts(ScriptNames={"close2", "burst", "half", "silent"}, MaxFaults=1))
+        ctx.tlc("Listener", "Listener_mc.cfg", workers=W, timeout=3000, tag="mc_tcp_rt1",
+                consts=base_consts(ScriptNames={"burst", "half", "crhalf"}, ReadTimeout=True, MaxFaults=1, MaxListenFail=1))
         ctx.tlc("Listener", "Listener_mc.cfg", workers=W, timeout=3000, tag="mc_pinned_nofault",
                 consts=base_consts(ScriptNames=set(ALL_SCRIPTS), Protocol="pinned", ReadTimeout=True))
         ctx.tlc("Listener", "Listener_mc.cfg", workers=W, timeout=3000, tag="mc_3conns",
@@ -357,7 +357,7 @@ def run(ctx):
         forced += [dict(fault="udp", block=False, quick_stop=False), dict(fault="both", block=True, quick_stop=False),
                    dict(fault="tcp", block=True, rt_ms=RT_MS, quick_stop=False), dict(fault="udp", block=True, quick_stop=False),
                    dict(fault="tcp", block=True, quick_stop=False)]
-    n = ctx.pick(60, 600)
+    n = ctx.pick(60, 400)
     scs, hists = build_scenarios(ctx, shapes, scripts, rng, n, forced)
     sf = ctx.write_ndjson("xl_scen.ndjson", scs)
     rf = os.path.join(ctx.out, "xl_result.ndjson")
